@@ -51,7 +51,13 @@ fn line_changes(patched_file: &PatchedFile) -> Vec<LineChange> {
                     let ranges = line_diff(&deleted_line.value, &line.value);
                     line_changes.push(LineChange {
                         line: line.target_line_no.unwrap(),
-                        ranges: Some(ranges),
+                        // A removed/added pair without a visible difference differs in what the
+                        // diff reader strips (the line ending, CR LF vs LF): the whole line changed.
+                        ranges: if ranges.is_empty() {
+                            None
+                        } else {
+                            Some(ranges)
+                        },
                     });
                 } else {
                     // This is a new (added) line.
